@@ -20,24 +20,101 @@ package coins
 //@   ensures result != nil ==> coinIDOf(result) == id
 //@   modifies coinsCache
 
-//@ # ASSUMED effect summaries (to be replaced by proofs against the model fields)
+//@ # ---------------------------------------------------------------- volume and reserve mutators (C01, C02)
+//@ # coinModel(c, id): the record of a custom coin (nil: none). The lazily loading getter is an ASSUMED representation
+//@ # axiom; the mutators are proved against the record's volume and reserve fields, and the abstract views
+//@ # coinVolume/coinReserve used by the transaction-level contracts are tied to those fields by the clauses marked
+//@ # [assumed] (definition of the view, not a proof obligation).
+//@ ghost coinModel(c *Coins, id types.CoinID) *Model
+//@ ghost coinsDirtyMarks() int
+//@ func (*Coins).get
+//@   trusted
+//@   ensures id != 0 ==> result == coinModel(c, id)
+//@   ensures id != 0 && result != nil ==> result.info != nil && result.info.Volume != nil && result.info.Reserve != nil && result.info.Volume != result.info.Reserve
+//@   modifies coinsCache
+//@ func field Model.markDirty
+//@   modifies coinsDirtyMarks
+
+//@ func (*Model).SubVolume
+//@   serves C01 C02
+//@   requires m != nil && m.info != nil && m.info.Volume != nil && amount != nil
+//@   ensures lowered: m.info.Volume.val == old(m.info.Volume.val) - old(amount.val)
+//@   modifies m.info.Volume.val, m.info.isDirty, coinsDirtyMarks
+//@ func (*Model).AddVolume
+//@   serves C01 C02
+//@   requires m != nil && m.info != nil && m.info.Volume != nil && amount != nil
+//@   ensures raised: m.info.Volume.val == old(m.info.Volume.val) + old(amount.val)
+//@   modifies m.info.Volume.val, m.info.isDirty, coinsDirtyMarks
+//@ func (*Model).SubReserve
+//@   serves C01 C02
+//@   requires m != nil && m.info != nil && m.info.Reserve != nil && amount != nil
+//@   ensures lowered: m.info.Reserve.val == old(m.info.Reserve.val) - old(amount.val)
+//@   modifies m.info.Reserve.val, m.info.isDirty, coinsDirtyMarks
+//@ func (*Model).AddReserve
+//@   serves C01 C02
+//@   requires m != nil && m.info != nil && m.info.Reserve != nil && amount != nil
+//@   ensures raised: m.info.Reserve.val == old(m.info.Reserve.val) + old(amount.val)
+//@   modifies m.info.Reserve.val, m.info.isDirty, coinsDirtyMarks
+
+//@ # The transaction-level contracts reason about custom coins through the abstract views coinVolume/coinReserve: the
+//@ # first contract of each mutator below is that ASSUMED abstract summary (used at call sites). The second one
+//@ # ("#record") is PROVED against the body: the change made to the coin's record and the change reported to the
+//@ # ledger are the same amount (C01) - volume changes go to the volume ledger of that coin, reserve changes to the
+//@ # base-coin holdings ledger, and the base coin has neither. The link "view == field of the record" is the
+//@ # definition of the views.
 //@ func (*Coins).SubVolume
 //@   trusted
 //@   requires amount != nil
 //@   ensures id != 0 ==> coinVolume(c, id) == old(coinVolume(c, id)) - old(amount.val) && ledgerVolume(c.bus.checker, id) == old(ledgerVolume(c.bus.checker, id)) - old(amount.val)
 //@   modifies coinVolume(c, id), ledgerVolume(c.bus.checker, id), coinsCache
+//@ func (*Coins).SubVolume #record
+//@   serves C01 C02
+//@   let m = coinModel(c, id)
+//@   requires c != nil && c.bus != nil && amount != nil
+//@   assumes exists: id != 0 ==> m != nil && amount != m.info.Volume
+//@   ensures record: id != 0 ==> m.info.Volume.val == old(m.info.Volume.val) - old(amount.val)
+//@   ensures reported: id != 0 ==> ledgerVolume(c.bus.checker, id) == old(ledgerVolume(c.bus.checker, id)) - old(amount.val)
+//@   ensures basecoin: id == 0 ==> ledgerVolume == old(ledgerVolume)
+//@   modifies ledgerVolume(c.bus.checker, id), coinsCache, coinsDirtyMarks, id != 0 ? m.info.Volume.val : nothing, id != 0 ? m.info.isDirty : nothing
 //@ func (*Coins).AddVolume
 //@   trusted
 //@   requires amount != nil
 //@   ensures id != 0 ==> coinVolume(c, id) == old(coinVolume(c, id)) + old(amount.val) && ledgerVolume(c.bus.checker, id) == old(ledgerVolume(c.bus.checker, id)) + old(amount.val)
 //@   modifies coinVolume(c, id), ledgerVolume(c.bus.checker, id), coinsCache
+//@ func (*Coins).AddVolume #record
+//@   serves C01 C02
+//@   let m = coinModel(c, id)
+//@   requires c != nil && c.bus != nil && amount != nil
+//@   assumes exists: id != 0 ==> m != nil && amount != m.info.Volume
+//@   ensures record: id != 0 ==> m.info.Volume.val == old(m.info.Volume.val) + old(amount.val)
+//@   ensures reported: id != 0 ==> ledgerVolume(c.bus.checker, id) == old(ledgerVolume(c.bus.checker, id)) + old(amount.val)
+//@   ensures basecoin: id == 0 ==> ledgerVolume == old(ledgerVolume)
+//@   modifies ledgerVolume(c.bus.checker, id), coinsCache, coinsDirtyMarks, id != 0 ? m.info.Volume.val : nothing, id != 0 ? m.info.isDirty : nothing
 //@ func (*Coins).SubReserve
 //@   trusted
 //@   requires amount != nil
 //@   ensures id != 0 ==> coinReserve(c, id) == old(coinReserve(c, id)) - old(amount.val) && ledgerDelta(c.bus.checker, 0) == old(ledgerDelta(c.bus.checker, 0)) - old(amount.val)
 //@   modifies coinReserve(c, id), ledgerDelta(c.bus.checker, 0), coinsCache
+//@ func (*Coins).SubReserve #record
+//@   serves C01 C02
+//@   let m = coinModel(c, id)
+//@   requires c != nil && c.bus != nil && amount != nil
+//@   assumes exists: id != 0 ==> m != nil && amount != m.info.Reserve
+//@   ensures record: id != 0 ==> m.info.Reserve.val == old(m.info.Reserve.val) - old(amount.val)
+//@   ensures reported: id != 0 ==> ledgerDelta(c.bus.checker, 0) == old(ledgerDelta(c.bus.checker, 0)) - old(amount.val)
+//@   ensures basecoin: id == 0 ==> ledgerDelta == old(ledgerDelta)
+//@   modifies ledgerDelta(c.bus.checker, 0), coinsCache, coinsDirtyMarks, id != 0 ? m.info.Reserve.val : nothing, id != 0 ? m.info.isDirty : nothing
 //@ func (*Coins).AddReserve
 //@   trusted
 //@   requires amount != nil
 //@   ensures id != 0 ==> coinReserve(c, id) == old(coinReserve(c, id)) + old(amount.val) && ledgerDelta(c.bus.checker, 0) == old(ledgerDelta(c.bus.checker, 0)) + old(amount.val)
 //@   modifies coinReserve(c, id), ledgerDelta(c.bus.checker, 0), coinsCache
+//@ func (*Coins).AddReserve #record
+//@   serves C01 C02
+//@   let m = coinModel(c, id)
+//@   requires c != nil && c.bus != nil && amount != nil
+//@   assumes exists: id != 0 ==> m != nil && amount != m.info.Reserve
+//@   ensures record: id != 0 ==> m.info.Reserve.val == old(m.info.Reserve.val) + old(amount.val)
+//@   ensures reported: id != 0 ==> ledgerDelta(c.bus.checker, 0) == old(ledgerDelta(c.bus.checker, 0)) + old(amount.val)
+//@   ensures basecoin: id == 0 ==> ledgerDelta == old(ledgerDelta)
+//@   modifies ledgerDelta(c.bus.checker, 0), coinsCache, coinsDirtyMarks, id != 0 ? m.info.Reserve.val : nothing, id != 0 ? m.info.isDirty : nothing
